@@ -504,6 +504,34 @@ func (r *Run) afterLin() {
 		}
 		h.add(p, 999, call, ret, regIn{Kind: "r"}, regOut{val}, "final read -> "+short(val))
 	}
+	// reach probes: how often did the schedules actually overlap operations?
+	for _, p := range parts {
+		ops := h.parts[p]
+		for i := range ops {
+			for j := range ops {
+				if i >= j || ops[i].ClientId == ops[j].ClientId || ops[i].Call > ops[j].Return || ops[j].Call > ops[i].Return {
+					continue
+				}
+				a, aok := ops[i].Input.(regIn)
+				b, bok := ops[j].Input.(regIn)
+				if aok && bok {
+					switch {
+					case a.Kind == "r" && b.Kind == "w", a.Kind == "w" && b.Kind == "r":
+						r.probe("read overlapped a write of the same key")
+					case a.Kind == "w" && b.Kind == "w":
+						r.probe("two writes of the same key overlapped")
+					case a.Kind == "d" || b.Kind == "d":
+						r.probe("a delete overlapped another operation on the key")
+					}
+				}
+				if am, ok := ops[i].Input.(mpuIn); ok {
+					if bm, ok := ops[j].Input.(mpuIn); ok && (am.Kind == "complete") != (bm.Kind == "complete") {
+						r.probe("upload-part overlapped complete of the same upload")
+					}
+				}
+			}
+		}
+	}
 	timeout := 15 * time.Second
 	for _, p := range parts {
 		ops := h.parts[p]
